@@ -312,8 +312,8 @@ impl Check for C10 {
     }
     fn profiles(&self) -> Vec<ProfileSpec> {
         vec![
-            ProfileSpec { name: "tiling", quick: 15_000, thorough: 400_000 },
-            ProfileSpec { name: "honest-swarm", quick: 2000, thorough: 40_000 },
+            ProfileSpec { name: "tiling", quick: 15_000, thorough: 1_000_000 },
+            ProfileSpec { name: "honest-swarm", quick: 2000, thorough: 100_000 },
         ]
     }
     fn rule(&self) -> &'static str {
@@ -355,7 +355,7 @@ impl Check for C01 {
         "C01"
     }
     fn profiles(&self) -> Vec<ProfileSpec> {
-        vec![ProfileSpec { name: "adversary-mix", quick: 20_000, thorough: 500_000 }]
+        vec![ProfileSpec { name: "adversary-mix", quick: 20_000, thorough: 1_250_000 }]
     }
     fn rule(&self) -> &'static str {
         "profile adversary-mix: 1-3 honest seeders + 1-5 adversarial peers (corrupt block at (piece,block), duplicates, blocks for other pieces / wrong offsets / unrequested blocks, truncated block frame then Rst, disconnect after k blocks, disk write errors), 2-25 pieces on both sides of the end-game threshold, yields on. Non-trivial: >= 1 corrupt, misplaced or unrequested block reached an open epoch, or a disk write failed. Distinct: interleaving hash x geometry class."
@@ -516,7 +516,7 @@ impl Check for C09 {
         "C09"
     }
     fn profiles(&self) -> Vec<ProfileSpec> {
-        vec![ProfileSpec { name: "leechers", quick: 15_000, thorough: 400_000 }]
+        vec![ProfileSpec { name: "leechers", quick: 15_000, thorough: 1_000_000 }]
     }
     fn rule(&self) -> &'static str {
         "profile leechers: the client first downloads from an honest seeder, then 1-14 leechers (dial-in and listed) send Interested and request streams mixing valid requests with every boundary of (index, begin, len): begin > 0xFFFFC000, len 0, len 16385, index = n, pieces not owned, piece switches, requests while choked and right after the client's Choke arrived; >= 11 interested leechers in some runs so that rotations really choke. Non-trivial: the client served >= 1 block or received >= 1 out-of-range request. Distinct: interleaving hash x (number of leechers, request-kind set)."
@@ -671,7 +671,7 @@ impl Check for C08 {
         "C08"
     }
     fn profiles(&self) -> Vec<ProfileSpec> {
-        vec![ProfileSpec { name: "handshakes", quick: 20_000, thorough: 600_000 }]
+        vec![ProfileSpec { name: "handshakes", quick: 20_000, thorough: 1_500_000 }]
     }
     fn rule(&self) -> &'static str {
         "profile handshakes: an honest seeder runs first so the client owns data; then incoming and listed peers whose handshake is correct / wrong info-hash / wrong id / wrong protocol string / absent / late (after Bitfield, Interested and Requests for owned pieces) / repeated with another hash, at arbitrary positions of an otherwise honest exchange. Non-trivial: >= 1 connection with a non-standard handshake behaviour was established. Distinct: interleaving hash x multiset of handshake kinds."
@@ -809,9 +809,9 @@ impl Check for C11 {
     }
     fn profiles(&self) -> Vec<ProfileSpec> {
         vec![
-            ProfileSpec { name: "announce", quick: 10_000, thorough: 300_000 },
-            ProfileSpec { name: "honest-swarm", quick: 2000, thorough: 30_000 },
-            ProfileSpec { name: "stall", quick: 3000, thorough: 80_000 },
+            ProfileSpec { name: "announce", quick: 10_000, thorough: 750_000 },
+            ProfileSpec { name: "honest-swarm", quick: 2000, thorough: 75_000 },
+            ProfileSpec { name: "stall", quick: 3000, thorough: 200_000 },
         ]
     }
     fn rule(&self) -> &'static str {
